@@ -438,46 +438,54 @@ def litCenter : MFM Unit := do
       lighting ← lit lighting (← idx longLeg i)
   setLighting lighting
 
+/-- one round of the `while True` of step IV on the long leg `longLeg` of length `n`:
+`none` = leave the loop with the candidate as it is, `some l` = next round with `l` -/
+def reduceRound (longLeg : List PS) (n : Nat) (lighting : PS) : MFM (Option PS) := do
+  let lits ← getLitsOf lighting longLeg
+  if lits.length == 0 then
+    appendToCenter lighting
+    throw .appended
+  if lits.length == 2 then
+    let li := getLitIndexes longLeg lits
+    if (← idx li 0) == 0 && (← idx li 1) == n - 1 then
+      return none
+  if lits.length == 1 then
+    let l0 ← idx lits 0
+    if (← idx longLeg 0).beq l0 || (← idx longLeg (-1)).beq l0 then
+      return none
+    -- here `long_leg[0] != lits[0]` necessarily holds
+    let li := getLitIndexes longLeg lits
+    let i0 ← idx li 0
+    if i0 < n - 1 then
+      for v in longLeg.drop (i0 + 1) do appendDelayed v
+      remove (← idx longLeg ((i0 : Int) + 1))
+    return none
+  let li := getLitIndexes longLeg lits
+  let first ← idx li 0
+  let second ← idx li 1
+  if first > 0 && first + 1 != second then
+    let mut lighting := lighting
+    for i in rangeDown second first do
+      lighting ← lit lighting (← idx longLeg i)
+    return some lighting
+  else
+    return some (← lit lighting (← idx longLeg second))
+
+/-- the `while True` of step IV with the model's fuel (structural recursion, so that the loop can
+be reasoned about) -/
+def reduceLoop (longLeg : List PS) (n : Nat) : Nat → PS → MFM PS
+  | 0, _ => throw .outOfFuel
+  | fuel + 1, lighting => do
+    match ← reduceRound longLeg n lighting with
+    | none => pure lighting
+    | some l => reduceLoop longLeg n fuel l
+
 /-- Step IV; the `while True` takes fuel -/
 def reduceLongLegMoreThanOneLits : MFM Unit := do
-  let mut lighting ← getLighting
+  let lighting ← getLighting
   let longLeg ← getLongLeg
   let n := longLeg.length
-  let mut fuel := 4 * (n + 2) * (n + 2) + 16
-  let mut done := false
-  while !done do
-    if fuel == 0 then throw .outOfFuel
-    fuel := fuel - 1
-    let lits ← getLitsOf lighting longLeg
-    if lits.length == 0 then
-      appendToCenter lighting
-      throw .appended
-    if lits.length == 2 then
-      let li := getLitIndexes longLeg lits
-      if (← idx li 0) == 0 && (← idx li 1) == n - 1 then
-        done := true
-        continue
-    if lits.length == 1 then
-      let l0 ← idx lits 0
-      if (← idx longLeg 0).beq l0 || (← idx longLeg (-1)).beq l0 then
-        done := true
-        continue
-      -- here `long_leg[0] != lits[0]` necessarily holds
-      let li := getLitIndexes longLeg lits
-      let i0 ← idx li 0
-      if i0 < n - 1 then
-        for v in longLeg.drop (i0 + 1) do appendDelayed v
-        remove (← idx longLeg ((i0 : Int) + 1))
-      done := true
-      continue
-    let li := getLitIndexes longLeg lits
-    let first ← idx li 0
-    let second ← idx li 1
-    if first > 0 && first + 1 != second then
-      for i in rangeDown second first do
-        lighting ← lit lighting (← idx longLeg i)
-    else
-      lighting ← lit lighting (← idx longLeg second)
+  let lighting ← reduceLoop longLeg n (4 * (n + 2) * (n + 2) + 16) lighting
   setLighting lighting
 
 /-- Step V -/
@@ -674,54 +682,46 @@ def excTag : Exc → String
   | .appended => "A" | .checkAppended => "C" | .dependent => "D" | .notConnected => "N"
   | .morphErr => "M" | .indexErr => "I" | .py _ => "P" | .outOfFuel => "F"
 
+/-- `self.delayed_vertices` go back to the front of the queue -/
+def restore (vs : List PS) (s : MF) : List PS × MF := (s.delayed ++ vs, { s with delayed := [] })
+
+/-- the `while len(vertices) > 0` of `build` with the model's fuel (structural recursion, so that
+the loop can be reasoned about): state, queue, `unappended`, tags -/
+def buildLoop : Nat → MF → List PS → List PS → List String → BuildResult
+  | _, st, [], unappended, tags => ⟨st.legs, st.dependents, unappended, tags, true⟩
+  | 0, st, _ :: _, unappended, tags => ⟨st.legs, st.dependents, unappended, tags, false⟩
+  | fuel + 1, st, lighting :: vertices, unappended, tags =>
+    match runPipeline st lighting with
+    | (.ok (), st) =>
+      -- the pipeline never returns normally; Python would simply continue the loop
+      buildLoop fuel st vertices unappended (tags ++ ["R"])
+    | (.error e, st) =>
+      let tags := tags ++ [excTag e]
+      match e with
+      | .appended =>
+        let (vs, s) := restore vertices st
+        buildLoop fuel s vs (if mem unappended lighting then removeFirst unappended lighting else unappended) tags
+      | .dependent =>
+        let (vs, s) := restore vertices { st with dependents := st.dependents ++ [lighting] }
+        buildLoop fuel s vs unappended tags
+      | .notConnected =>
+        let (vs, s) := restore vertices st
+        if !(mem unappended lighting) then
+          buildLoop fuel s (vs ++ [lighting]) (unappended ++ [lighting]) tags
+        else
+          buildLoop fuel s vs unappended tags
+      | .outOfFuel => ⟨st.legs, st.dependents, unappended, tags, false⟩
+      | _ =>
+        let (vs, s) := restore vertices st
+        buildLoop fuel s vs (unappended ++ [lighting]) tags
+
 /-- `build(generators)` -/
 def build (gens : List PS) : Except Err BuildResult := do
   if gens.isEmpty then return ⟨[], [], [], [], true⟩
   match ← getQueue gens with
   | none => return ⟨[], [], [], ["queue-hang"], false⟩
   | some queue =>
-    let mut st : MF := {}
-    let mut vertices := queue
-    let mut unappended : List PS := []
-    let mut tags : List String := []
-    let mut fuel := (queue.length + 2) * (queue.length + 2) * (queue.length + 2) + 64
-    while vertices.length > 0 do
-      if fuel == 0 then return ⟨st.legs, st.dependents, unappended, tags, false⟩
-      fuel := fuel - 1
-      match vertices with
-      | [] => break
-      | lighting :: rest =>
-        vertices := rest
-        let (r, st') := runPipeline st lighting
-        st := st'
-        let restore := fun (vs : List PS) (s : MF) => (s.delayed ++ vs, { s with delayed := [] })
-        match r with
-        | .ok () =>
-          -- the pipeline never returns normally; Python would simply continue the loop
-          tags := tags ++ ["R"]
-        | .error e =>
-          tags := tags ++ [excTag e]
-          match e with
-          | .appended =>
-            let (vs, s) := restore vertices st
-            vertices := vs; st := s
-            if mem unappended lighting then unappended := removeFirst unappended lighting
-          | .dependent =>
-            st := { st with dependents := st.dependents ++ [lighting] }
-            let (vs, s) := restore vertices st
-            vertices := vs; st := s
-          | .notConnected =>
-            let (vs, s) := restore vertices st
-            vertices := vs; st := s
-            if !(mem unappended lighting) then
-              unappended := unappended ++ [lighting]
-              vertices := vertices ++ [lighting]
-          | .outOfFuel => return ⟨st.legs, st.dependents, unappended, tags, false⟩
-          | _ =>
-            let (vs, s) := restore vertices st
-            vertices := vs; st := s
-            unappended := unappended ++ [lighting]
-    return ⟨st.legs, st.dependents, unappended, tags, true⟩
+    return buildLoop ((queue.length + 2) * (queue.length + 2) * (queue.length + 2) + 64) {} queue [] []
 
 /-- `MorphFactory.is_eq(legs, generators)`: every generator is tested against a
 fresh copy of the stored legs; only `DependentException` means membership -/
